@@ -72,8 +72,10 @@ pub(crate) mod verif_iso {
                 let want = if !fits0 { r0.clone() } else { r1.clone() };
                 assert!(Arc::ptr_eq(&rule.unwrap(), &want));
                 let s = snap.unwrap();
-                let v = (*s).as_any().downcast_ref::<u32>();
-                assert!(v.is_some() && *v.unwrap() == cur);
+                // the snapshot was created from a u32: read it through the data pointer (Any::downcast needs vtable entries that
+                // -Z restrict-vtable cannot resolve)
+                let v = unsafe { *(Arc::as_ptr(&s) as *const u32) };
+                assert!(v == cur);
             } else {
                 assert!(rule.is_none() && snap.is_none());
             }
